@@ -93,4 +93,20 @@ def fs17Case (id : String) (payload : List Sexp) : List String :=
     both id model spec (region c).str
   | _, _, _, _ => err id "bad-fs17-case"
 
+/-- `(case <id> clean17 (cmd new) (genfile "a.shootnew.go") (listing (f name (line "…")) …))`: what Clean removes -/
+def clean17Case (id : String) (payload : List Sexp) : List String :=
+  let p := Sexp.list (.atom "p" :: payload)
+  let sub (k : String) : List Sexp := match p.field? k with
+    | some (.list (_ :: xs)) => xs
+    | _ => []
+  match parseCmd (fsStr p "cmd"), (sub "listing").mapM parseFileInfo with
+  | some cmd, some listing =>
+    both id [("removed", " ".intercalate (cleanLoop cmd (fsStr p "genfile") listing))] [] "WF"
+  | _, _ => err id "bad-clean17-case"
+
+/-- `(case <id> dirline (cmdline "shoot new -type=*") (line "//go:generate go tool shoot new -type=*"))`: findCmdLine -/
+def dirlineCase (id : String) (payload : List Sexp) : List String :=
+  let p := Sexp.list (.atom "p" :: payload)
+  both id [("match", toString (ShootVerif.Cli.isDirective (fsStr p "cmdline") (fsStr p "line")))] [] "WF"
+
 end ShootVerif.Drive
